@@ -1,0 +1,14 @@
+//go:build verif
+
+package inprocgrpc
+
+// VerifHook, when set, is called at named schedule points of the in-process
+// transport. It exists only in builds with the "verif" tag and is used by the
+// external verification harness to control interleavings deterministically.
+var VerifHook func(point string)
+
+func verifPoint(p string) {
+	if h := VerifHook; h != nil {
+		h(p)
+	}
+}
